@@ -23,6 +23,8 @@ PATTERNS = {
     'A': dict(recessions=((1, 5), (0, 6), (2, 5)), storm_steps=2),
     'B': dict(recessions=((2, 4), (0, 7)), storm_steps=1),
     'C': dict(recessions=((0, 5), (1, 4), (0, 6)), storm_steps=3),
+    # D: the second rise (5 -> 7 mm) crosses no level of a 4 mm grid and is not the last one
+    'D': dict(recessions=((0, 6), (2, 4), (0, 6)), storm_steps=1),
 }
 
 
@@ -70,7 +72,10 @@ def run_workflow(eng, ctx, which):
     G = len(rain)
     epochs = list(rec['epochs']) + [rec['epochs'][-1] + rec['step_s']]
     conn = symsql.Connection()
-    dbstate.build(conn, epochs, [True] * (G + 1), rain[:G], rec['et'][:G], zeta + [zeta[-1]], rec['step_s'])
+    valid = [True] * (G + 1)
+    for i in ctx.get('gap', ()):
+        valid[i] = False          # a hole in the water-level record (two data intervals)
+    dbstate.build(conn, epochs, valid, rain[:G], rec['et'][:G], zeta + [zeta[-1]], rec['step_s'])
     step = Fraction(ctx['grid'])
     m['classify'].classify_intervals(conn, Fraction(1), Fraction(1, 2))
     m['zeta_grid'].populate_zeta_grid(conn, step)
@@ -126,7 +131,7 @@ def harness(eng, ctx):
     step_h = Fraction(rec['step_s'], 3600)
     dz = {r['zeta_number'] for r in db.tables['discrete_zeta'].rows}
     # grid covers the observed range: every multiple m with min <= m*step < max
-    zs = zeta
+    zs = [z for i, z in enumerate(zeta) if i not in ctx.get('gap', ())]
     zmin = zs[0]
     zmax = zs[0]
     for v in zs[1:]:
@@ -219,6 +224,7 @@ def harness(eng, ctx):
         table_off, table_cross = off, by_interval
     # C05 at table level: residuals of every interval against the master curve sum to zero
     levels = {}
+    props = ctx.get('props', ('C13', 'C05'))
     for a, d in table_cross.items():
         for m, v in d.items():
             if a in table_off:
@@ -229,7 +235,8 @@ def harness(eng, ctx):
             if a in d:
                 mean = sum((d[k] for k in sorted(d)), Fraction(0)) / len(d)
                 acc = acc + (d[a] - mean)
-        eng.prove(acc == 0, 'C05: residuals of every stored interval against the stored master curve sum to zero', detail='interval %d' % a)
+        if 'C05' in props:
+            eng.prove(acc == 0, 'C05: residuals of every stored interval against the stored master curve sum to zero', detail='interval %d' % a)
     # and the views agree with the tables
     view = 'average_rising_depth' if which == 'rise' else 'average_recession_time'
     vrows = conn.execute('SELECT * FROM %s' % view).fetchall()
@@ -259,7 +266,7 @@ def replay_real(ctx, m, which):
     rec2 = dict(rec, zeta=zeta, rain=rain)
     step = Fraction(ctx['grid'])
     info = {'pattern': ctx['pattern'], 'grid_step': float(step), 'which': which, 'reference': ctx.get('reference')}
-    with pipeline.RealRun(synth.to_csv_texts(rec2)) as rr:
+    with pipeline.RealRun(synth.to_csv_texts(rec2, drop_level_rows=tuple(ctx.get('gap', ())))) as rr:
         ref = ctx.get('reference')
         errs = [rr.load(), rr.classify(1, 0.5), rr.zeta_grid(float(step)),
                 (rr.rise if which == 'rise' else rr.recession)(None if ref is None else repr(float(ref)))]
@@ -271,7 +278,8 @@ def replay_real(ctx, m, which):
         dzs = {r[0] for r in rr.query('SELECT zeta_number FROM discrete_zeta')}
         probs = []
         zf = [float(z) for z in zeta]
-        lo, hi = min(zeta), max(zeta)
+        present = [z for i, z in enumerate(zeta) if i not in ctx.get('gap', ())]
+        lo, hi = min(present), max(present)
         want_grid = set(range(math.ceil(lo / step), math.ceil(hi / step)))
         if not want_grid <= dzs:
             probs.append('grid misses levels %r' % sorted(want_grid - dzs))
@@ -335,6 +343,23 @@ def replay_real(ctx, m, which):
 _REF = {}
 
 
+def config_name(c):
+    return 'curve[%s,%s,grid=%s,ongrid=%s%s%s]' % (c['which'], c['pattern'], c['grid'], c['ongrid'],
+                                                  ',ref' if c.get('reference') is not None else '',
+                                                  ',gap=%s' % '+'.join(map(str, c['gap'])) if c.get('gap') else '')
+
+
+def config_from_name(h):
+    inner = h.split('[')[1].rstrip(']').split(',')
+    c = {'which': inner[0], 'pattern': inner[1], 'grid': inner[2].split('=')[1], 'ongrid': inner[3].split('=')[1]}
+    for extra in inner[4:]:
+        if extra == 'ref':
+            c['reference'] = pick_reference(c['which'])
+        elif extra.startswith('gap='):
+            c['gap'] = tuple(int(x) for x in extra[4:].split('+'))
+    return c
+
+
 def pick_reference(which):
     """A level in the middle of the curve of pattern A at grid step 1 (from a real CLI run)."""
     if which not in _REF:
@@ -365,6 +390,15 @@ class C13(Check):
         # with a reference level (the -r option), one configuration per kind
         for which in ('rise', 'recession'):
             out.append({'pattern': 'A', 'grid': '1', 'ongrid': 'all', 'which': which, 'reference': pick_reference(which)})
+        # a hole in the water-level record in the first recession (samples 6, 7), a later rise follows
+        out.append({'pattern': 'A', 'grid': '1', 'ongrid': 'all', 'which': 'rise', 'gap': (6, 7)})
+        # a coarse grid and a rise that stays between two grid levels
+        out.append({'pattern': 'D', 'grid': '4', 'ongrid': 'all', 'which': 'rise'})
+        if not quick:
+            out.append({'pattern': 'A', 'grid': '1', 'ongrid': 'none', 'which': 'recession', 'gap': (6, 7)})
+            out.append({'pattern': 'D', 'grid': '4', 'ongrid': 'none', 'which': 'rise'})
+        for c in out:
+            c.setdefault('props', ('C13',))
         return out
 
     def run(self):
@@ -384,7 +418,7 @@ class C13(Check):
         self.outside = ['records other than the three patterns', 'gaps (C01/C03 DB harness)']
         self.run_conformance(patterns=None)
         for c in cfgs:
-            name = 'curve[%s,%s,grid=%s,ongrid=%s%s]' % (c['which'], c['pattern'], c['grid'], c['ongrid'], ',ref' if c.get('reference') else '')
+            name = config_name(c)
             exp = symx.explore(harness, c, name=name, engine_kw={'query_timeout_ms': 60000})
             self.absorb(exp, need_paths=1)
         for c in cfgs[:4] + cfgs[-2:]:
@@ -398,11 +432,7 @@ class C13(Check):
         self._cfg_by_name = {}
 
     def replay(self, failure):
-        h = failure['harness']
-        inner = h.split('[')[1].rstrip(']').split(',')
-        c = {'which': inner[0], 'pattern': inner[1], 'grid': inner[2].split('=')[1], 'ongrid': inner[3].split('=')[1]}
-        if len(inner) > 4:
-            c['reference'] = pick_reference(c['which'])
+        c = config_from_name(failure['harness'])
         m = model_fractions(failure.get('model'))
         ok, info = replay_real(c, m, c['which'])
         info['expected'] = failure.get('detail')
